@@ -27,6 +27,8 @@ THEOREMS = [
     "WM.C13.civil_order", "WM.C13.range_query_civil", "WM.C13.partial_date_period",
     "WM.C13.range_bound_period", "WM.C13.parse_range_datetime", "WM.C13.parse_query_datetime",
     "WM.C13.column_order",
+    "WM.C13.parse_query_total", "WM.C13.datetime_roundtrip",
+    "WM.C13.boolean_match", "WM.C13.boolean_old_disagrees",
 ]
 PARTIAL = {
     "WM.C13.range_query_float_numeric_partial":
@@ -67,9 +69,11 @@ ASSUMPTIONS = [
     "list of character codes: digits and characters int() rejects; what else int() accepts (sign, underscore, "
     "non-ASCII digits) is outside the model",
     "the proleptic Gregorian calendar is modelled for the datetime -> microseconds direction (toordinal, month "
-    "lengths, leap years; theorem civil_order) and compared with CPython's date.toordinal/calendar.monthrange; "
-    "the inverse direction (long_to_datetime: timedelta added to datetime.min) stays Python's: the model returns "
-    "the normalised (days, seconds, microseconds) triple",
+    "lengths, leap years; theorem civil_order) and for the inverse direction (long_to_datetime through CPython's "
+    "_ord2ymd; theorem datetime_roundtrip); both are compared with CPython's date.toordinal / date.fromordinal / "
+    "calendar.monthrange by sampling — timedelta normalisation and datetime.__add__ themselves are Python's",
+    "BOOLEAN: inputs are modelled by how the code classifies them (bool/object with a truth value, string in "
+    "trues, string in falses, other string, empty string, '*'); str.lower() and set membership are Python's",
     "DATETIME.parse_query of a fully specified timestamp gives Term(field, datetime); that this term selects "
     "exactly the documents holding that instant is checked end-to-end, the theorem parse_query_datetime covers "
     "the ambiguous (partial date) case",
@@ -811,6 +815,19 @@ def _dateparse(ctx):
         d = rng.choice([1, dim, rng.randint(1, dim)])
         add("c13 ordinal %d %d %d" % (y, m, d), str(datetime.date(y, m, d).toordinal()), ("ordinal", y, m, d),
             d in (1, dim))
+        n = rng.choice([datetime.date(y, m, d).toordinal(), datetime.date(y, 12, 31).toordinal(), datetime.date(y, 1, 1).toordinal(),
+                        rng.randint(1, 3652059), 1, 3652059, 146097, 146098, 36524, 36525, 1461, 1462, 365, 366])
+        dd = datetime.date.fromordinal(n)
+        add("c13 ord2ymd %d" % n, "%d %d %d" % (dd.year, dd.month, dd.day), ("ord2ymd", n), dd.month == 12 and dd.day == 31)
+        x = rng.choice([G.dt_long(G.gen_datetimes(rng, 1)[0]), n * 86400000000 - rng.choice([1, 0, 86400000000]), -1, 315537897600000000,
+                        rng.randint(-10 ** 12, 315537897599999999 + 10 ** 12)])
+        try:
+            dtv = times.long_to_datetime(x)
+            r = "ok %d %d %d %d %d %d %d" % (dtv.year, dtv.month, dtv.day, dtv.hour, dtv.minute, dtv.second, dtv.microsecond)
+        except Exception as ex:  # noqa
+            r = "err " + G.exc_name(ex)
+        ctx.stat("long2civil:" + r.split()[0])
+        add("c13 long2civil %d" % x, r, ("long2civil", x))
         h, mi, sec, us = rng.randint(0, 23), rng.randint(0, 59), rng.randint(0, 59), rng.choice([0, 999999, rng.randint(0, 999999)])
         if rng.random() < 0.2:
             y, m, d, h, mi, sec, us = rng.choice([(0, m, d, h, mi, sec, us), (y, 13, d, h, mi, sec, us), (y, m, dim + 1, h, mi, sec, us),
@@ -966,6 +983,106 @@ def _columns(ctx):
         ctx.stat("column:" + line.split()[1])
         if m != v:
             ctx.divergence("NUMERIC/DATETIME column value:" + line.split()[1], line, m, v)
+
+
+# ================================================================================================
+# 3c. round 3b: BOOLEAN (index time vs query time) and long_to_datetime
+
+SIG_BOOL = "BOOLEAN:document-indexed-with-v-not-matched-exactly-by-queries-with-the-same-truth-value"
+_BOOL_WORDS = {"strtrue": ["t", "true", "yes", "1", "True", "YES", "T", "tRuE"],
+               "strfalse": ["f", "false", "no", "0", "False", "NO", "F", "fAlSe"],
+               "strother": ["garbage", "tr", "2", "y", "n", "on", "off", "truee", "00", "none", "null", "x"],
+               "strempty": [""], "star": ["*"]}
+
+
+def _bool_value(rng, cls):
+    if cls == "true":
+        return rng.choice([True, 1, 2, 0.5, [0], (None,), {"a": 1}])
+    if cls == "false":
+        return rng.choice([False, 0, 0.0, [], (), {}])
+    return rng.choice(_BOOL_WORDS[cls])
+
+
+def w_boolean(case):
+    """case = dict(docs=[value], words=[str]) -> dict(lexicon, results=[positions or 'exc'])."""
+    from whoosh import fields
+    from whoosh.qparser import QueryParser
+    try:
+        schema = fields.Schema(pos=fields.STORED, b=fields.BOOLEAN(stored=True))
+        ix = G.new_ram_index(schema)
+        per = max(1, len(case["docs"]) // case.get("segments", 1))
+        for base in range(0, len(case["docs"]), per):
+            w = ix.writer()
+            for i in range(base, min(len(case["docs"]), base + per)):
+                w.add_document(pos=i, b=case["docs"][i])
+            w.commit(merge=False)
+    except Exception as ex:  # noqa
+        return "exc " + G.exc_name(ex)
+    out = []
+    with ix.searcher() as s:
+        qp = QueryParser("b", schema)
+        for word in case["words"]:
+            try:
+                out.append(sorted(h["pos"] for h in s.search(qp.parse("b:" + word), limit=None)))
+            except Exception as ex:  # noqa
+                out.append("exc " + G.exc_name(ex))
+    return out
+
+
+def _boolean(ctx):
+    from whoosh import fields, query
+    rng = ctx.rng("boolean")
+    fld = fields.BOOLEAN()
+    classes = ["true", "false", "strtrue", "strfalse", "strother", "strempty", "star"]
+    model = dict(zip(classes, ctx.driver.ask(["c13 bool " + c for c in classes])))
+    # correspondence: _obj_to_bool, to_bytes, index, parse_query
+    for i in range(ctx.budget(400, 4000)):
+        cls = rng.choice(classes)
+        x = _bool_value(rng, cls)
+        try:
+            q = fld.parse_query("b", x) if isinstance(x, str) else None
+            if q is None:
+                qs = model[cls].split(" ", 3)[3]          # parse_query takes strings only
+            elif isinstance(q, query.Every):
+                qs = "every"
+            elif isinstance(q, query.Term) and isinstance(q.text, bool):
+                qs = "term %s" % _b(q.text)
+            else:
+                qs = "other " + repr(q)
+            impl = "%s %s (%s) %s" % (_b(fld._obj_to_bool(x)), fld.to_bytes(x).hex(),
+                                      " ".join(t[0].hex() for t in fld.index(x)), qs)
+        except Exception as ex:  # noqa
+            impl = "err " + G.exc_name(ex)
+        ctx.case(("bool", cls, repr(x)), nontrivial=cls not in ("true", "false"))
+        ctx.stat("boolean:" + cls)
+        if impl != model[cls]:
+            ctx.divergence("fields.BOOLEAN(_obj_to_bool/to_bytes/index/parse_query)", {"class": cls, "value": repr(x)},
+                           model[cls], impl)
+    # end to end: a document indexed with v is matched exactly by the query words of the same truth value
+    truth = {c: model[c].split()[0] == "1" for c in classes}
+    cases = []
+    for _ in range(ctx.budget(12, 120)):
+        dcls = [rng.choice(classes) for _ in range(rng.randint(2, 14))]
+        docs = [_bool_value(rng, c) for c in dcls]
+        wcls = [rng.choice(["strtrue", "strfalse", "strother", "star"]) for _ in range(8)]
+        words = [rng.choice(_BOOL_WORDS[c]) for c in wcls]
+        cases.append({"docs": docs, "dcls": dcls, "words": words, "wcls": wcls, "segments": rng.choice([1, 2])})
+    outs = ctx.pmap(w_boolean, cases)
+    for case, out in zip(cases, outs):
+        if isinstance(out, str):
+            ctx.violation(SIG_BUILD, {"stream": "boolean", "docs": [repr(d) for d in case["docs"]]}, "index built", out)
+            continue
+        for word, wc, o in zip(case["words"], case["wcls"], out):
+            if wc == "star":
+                e = list(range(len(case["docs"])))
+            else:
+                e = [i for i, c in enumerate(case["dcls"]) if truth[c] == truth[wc]]
+            ctx.case(("e2e-boolean", tuple(repr(d) for d in case["docs"]), word), nontrivial=0 < len(e) < len(case["docs"]))
+            ctx.stat("e2e-boolean:" + wc)
+            if o != e:
+                ctx.violation(SIG_BOOL, {"stream": "boolean", "docs": [repr(d) for d in case["docs"]], "classes": case["dcls"],
+                                         "word": word, "wordclass": wc}, e, o,
+                              "BOOLEAN field: real index + parsed query vs the Lean reading of the values")
 
 
 # ================================================================================================
@@ -1624,6 +1741,18 @@ def _run_record(ctx, rec):
         return []
     if st in ("e2e-range", "e2e-parse", "e2e-sort", "e2e"):
         return _replay_case(ctx, case)
+    if st == "boolean":
+        if "word" not in case:
+            return []
+        import ast
+        docs = [ast.literal_eval(d) for d in case["docs"]]
+        out = w_boolean({"docs": docs, "words": [case["word"]]})
+        if isinstance(out, str):
+            return [(SIG_BUILD, case, "index built", out)]
+        model = {c: ctx.driver.ask1("c13 bool " + c).split()[0] == "1" for c in set(case["classes"]) | {case["wordclass"]}}
+        e = list(range(len(docs))) if case["wordclass"] == "star" else \
+            [i for i, c in enumerate(case["classes"]) if model[c] == model[case["wordclass"]]]
+        return [] if out[0] == e else [(SIG_BOOL, case, e, out[0])]
     if st == "e2e-dateplugin":
         cfg = {"kind": "datetime", "bits": 64, "signed": True, "step": 8, "sortable": False, "dc": 0}
         docs = [datetime.datetime.fromisoformat(d) for d in case["docs"]]
@@ -1705,7 +1834,7 @@ def _run_record(ctx, rec):
 def run(ctx):
     import time
     for fn in (_corpus, _split_exhaustive, _split_wide, _tiered_exhaustive8, _codec_int, _codec_float, _compile,
-               _datetime, _decimal, _dateparse, _columns, _e2e_8bit_dense, _e2e, _e2e_dateplugin, _reject, _float_sortable_probe, _numeric_reading_probes):
+               _datetime, _decimal, _dateparse, _columns, _boolean, _e2e_8bit_dense, _e2e, _e2e_dateplugin, _reject, _float_sortable_probe, _numeric_reading_probes):
         t = time.time()
         fn(ctx)
         ctx.stat("wall_ms:" + fn.__name__.lstrip("_"), int((time.time() - t) * 1000))
